@@ -641,7 +641,7 @@ def gen_case_hostile(rng, mode, i):
 
 def gen_device(rng, idx, allow_noid=True, mixed=None, nsvc=None, hostile=None, name=None, look=None, renamed=False):
     """One self-consistent device: unique address/host/names; services of one pyatv protocol agree on
-    port, identifier and shared property keys; all services yield the same name; one model.
+    port, identifier and shared property keys; one model (the device names the services yield may differ).
     Single services may lack a unique identifier while others of the same device have one (Companion
     without rpMRtID, RAOP announced as plain "name" without pk, AirPlay without deviceid, MRP without
     UniqueIdentifier); `_airport` / `_sleep-proxy` services (registered types that never yield a
@@ -1054,8 +1054,7 @@ def gen_case_lookalikes(rng, mode, i):
     protoset = None if mode == "m" else [None, [3, 5], [2, 4]][i % 3]
     dgrams, hosts = layout(rng, mode, devs, protoset)
     return {"mode": mode, "protoset": protoset, "hosts": hosts, "enc": rng.choice(["r", "c"]), "dgrams": dgrams,
-            "absent": [d["addr"] for d in devs if d["expect_absent"]], "consistent": True,
-            "names_agree": not (i % 2 == 1)}
+            "absent": [d["addr"] for d in devs if d["expect_absent"]], "consistent": True}
 
 
 def gen_case_inconsistent(rng, mode):
@@ -1148,9 +1147,7 @@ def evaluate(ctx, desc, orders, label):
                 if shown[field] is not None and shown[field] != model[field]:
                     ctx.disagree(small, shown[field], model[field], where=field)
                     break
-            # `sc` (the theorems' hypothesis) also asks that all services of a device yield the same device NAME;
-            # the property does not (the name is not part of the snapshot): renamed instances are exempt
-            if desc["consistent"] and desc.get("names_agree", True) and (model["sc"] != "1" or model["opq"] != "1"):
+            if desc["consistent"] and (model["sc"] != "1" or model["opq"] != "1"):
                 ctx.disagree(small, "generated self-consistent", "sc=%s opq=%s" % (model["sc"], model["opq"]),
                              where="hypotheses of the theorems")
             if case.services is not None and res["services"] is not None and res["services"] != case.services:
